@@ -19,7 +19,7 @@ BOUNDS = {
     "quick": "open-handshake timeout T in {1,2}: peer handshake at every grid instant in [0, T+1] or never, both roles; close-handshake timeout in {1,2} x server-drop timeout in {1,2}: peer reply and TCP drop at every grid instant, both roles; peer-initiated close x echoCloseCodeReason on/off x (close, drop) timeouts {(1,3),(2,2)}: server TCP drop at every grid instant or never; auto-ping interval in {1,2} x timeout in {1,2} x restart-on-traffic on/off: 3 rounds with 6 peer reactions per round placed on the grid; every leftover timer fired after close",
     "thorough": "T in {1,2,3,5}, 4 auto-ping rounds, intervals/timeouts in {1,2,3}",
 }
-EXPECT_COVERS = ["peerclose:server", "peerclose:client-intime", "peerclose:client-late", "open:intime", "open:late", "close:reply-intime", "close:reply-late", "drop:intime", "drop:late", "ping:pong", "ping:silent", "ping:data", "ping:latepong"]
+EXPECT_COVERS = ["peerclose:server", "peerclose:client-intime", "peerclose:client-late", "open:intime", "open:late", "close:reply-intime", "close:reply-late", "drop:intime", "drop:late", "ping:pong", "ping:silent", "ping:data", "ping:latepong", "ping:fragment", "open:proxy", "race:ping-vs-close"]
 BUDGET = {"quick": dict(wall_s=300, max_paths=30000, diff_samples=4), "thorough": dict(wall_s=2400, max_paths=400000)}
 GRID = 0.25
 SLACK = 0.25
@@ -58,16 +58,21 @@ def _after_close_inert(sx, clock, ep, trace, info):
     sx.check(len(trace) == n and len(ep.t.written) == w, "timers-have-no-effect-after-close", info=info)
 
 
-def open_timeout(sx, server, T, fw="twisted"):
+def open_timeout(sx, server, T, fw="twisted", proxy=False):
     import base64
     import hashlib
     from symx.env import Trace
     clock = wslib.setup_fw(fw)
     trace = Trace()
     wslib.patch_env(sx, clock, fixed_rnd=True)
-    ep, f = wslib.make_endpoint_fw(fw, sx, "S" if server else "C", server, trace, clock, dict(openHandshakeTimeout=T))
+    ep, f = wslib.make_endpoint_fw(fw, sx, "S" if server else "C", server, trace, clock, dict(openHandshakeTimeout=T),
+                                   factory_kwargs=dict(proxy=dict(host="proxy.local", port=3128)) if proxy else None)
     ep.fw = fw
     ep.p.makeConnection(ep.t)
+    if proxy:
+        # the proxy answers the CONNECT at once; the opening handshake with the target is what the timeout is about
+        ep.p.dataReceived(b"HTTP/1.1 200 Connection established\r\n\r\n")
+        sx.cover("open:proxy")
     ngrid = int((T + 1) / GRID) + 1
     k = sx.choice("when", ngrid + 1)           # grid instant of the peer's handshake, or never (== ngrid)
     tau = None if k == ngrid else k * GRID
@@ -79,7 +84,7 @@ def open_timeout(sx, server, T, fw="twisted"):
         acc = base64.b64encode(hashlib.sha1(key + b"258EAFA5-E914-47DA-95CA-C5AB0DC85B11").digest())
         hs = (b"HTTP/1.1 101 Switching Protocols\r\nUpgrade: websocket\r\nConnection: Upgrade\r\n"
               b"Sec-WebSocket-Accept: " + acc + b"\r\n\r\n")
-    info = dict(server=server, T=T, tau=tau, fw=fw)
+    info = dict(server=server, T=T, tau=tau, fw=fw, proxy=proxy)
     dropped = None
     if tau is not None:
         dropped = _step(clock, ep, tau)
@@ -178,7 +183,7 @@ def close_timeouts(sx, server, Tc, Td, fw="twisted"):
     return [tau, tau2, d]
 
 
-REACTIONS = ["pong", "silent", "data", "data+latepong", "wrongpong", "data+pong-intime"]
+REACTIONS = ["pong", "silent", "data", "data+latepong", "wrongpong", "data+pong-intime", "fragment"]
 
 
 def autoping(sx, server, I, T, restart, rounds, fw="twisted"):
@@ -200,6 +205,7 @@ def autoping(sx, server, I, T, restart, rounds, fw="twisted"):
                     pings.append((now, f.payload))
 
     info = dict(server=server, I=I, T=T, restart=restart, fw=fw)
+    inside = [False]          # a fragmented data message of the peer is in progress
     log = []
     alive_until = None
     for r in range(rounds):
@@ -241,7 +247,14 @@ def autoping(sx, server, I, T, restart, rounds, fw="twisted"):
             # a data frame arrives with >= 1 s to spare
             _step(clock, ep, tp + early, scan)
             td = clock.seconds()
-            p.dataReceived(wslib.build_frame(2, b"d", mask=mask))
+            if react == "fragment":
+                # traffic = any frame: a non-final fragment of a long message still in flight (later rounds continue the same message)
+                p.dataReceived(wslib.build_frame(0 if inside[0] else 2, b"d", fin=False, mask=mask))
+                inside[0] = True
+                sx.cover("ping:fragment")
+            else:
+                p.dataReceived(wslib.build_frame(0 if inside[0] else 2, b"d", mask=mask))
+                inside[0] = False
             sx.cover("ping:data")
             if react == "data+pong-intime":
                 p.dataReceived(wslib.build_frame(10, pl, mask=mask))
@@ -331,6 +344,44 @@ def peer_close(sx, server, echo, Tc, Td, fw="twisted"):
     return [tau, d]
 
 
+def ping_vs_close(sx, server, I, T, Tc, fw="twisted"):
+    """two timers racing: automatic pings are configured and the application closes; the peer answers the close frame in time (>= 1 s before
+    closeHandshakeTimeout).  No ping can be answered any more once closing has begun (none is sent in that state), so the ping timer
+    must not drop this responsive peer - and must not be what the close is blamed on"""
+    opts = dict(autoPingInterval=I, autoPingTimeout=T, autoPingSize=12, closeHandshakeTimeout=Tc)
+    if not server:
+        opts["serverConnectionDropTimeout"] = 1
+    clock, trace, ep, rnd = wslib.open_one(sx, server, opts, fixed_rnd=True, fw=fw)
+    ep.fw = fw
+    p = ep.p
+    mask = b"\x01\x02\x03\x04" if server else None
+    k0 = sx.choice("closeAt", 4)                       # local close somewhere inside the first ping interval
+    _step(clock, ep, k0 * GRID)
+    t0 = clock.seconds()
+    p.sendClose(1000, "bye")
+    ng = int((Tc - 1) / GRID) + 1
+    k = sx.choice("reply", ng)                          # the peer's close reply at a grid instant with >= 1 s to spare
+    tau = k * GRID
+    info = dict(server=server, I=I, T=T, Tc=Tc, close_at=t0, reply_after=tau, fw=fw)
+    dropped = _step(clock, ep, t0 + tau)
+    sx.check(dropped is None, "responsive-peer-not-dropped-by-the-ping-timer-while-closing", info=dict(info, dropped=dropped))
+    if dropped is None:
+        p.dataReceived(wslib.build_frame(8, b"\x03\xe8", mask=mask))
+        if server:
+            sx.check(ep.t.closed is not None, "server-drops-after-reply", info=info)
+        else:
+            _step(clock, ep, t0 + tau + GRID)
+            sx.check(ep.t.closed is None, "client-waits-for-the-servers-tcp-drop", info=info)
+    _lost(ep, trace)
+    oc = trace.of(ep.who, "close")
+    sx.check(len(oc) == 1, "onClose-once", info=info)
+    if oc and dropped is None:
+        sx.check(oc[0][2] is True and oc[0][3] == 1000, "timely-close-reply=>clean-close", info=dict(info, oc=repr(oc[0])[:160]))
+    _after_close_inert(sx, clock, ep, trace, info)
+    sx.cover("race:ping-vs-close")
+    return [k0, tau, dropped]
+
+
 def units(tier):
     U = []
     q = tier == "quick"
@@ -342,6 +393,8 @@ def units(tier):
     for server in (True, False):
         for T in Ts:
             U.append(("open/%s/T%d" % ("S" if server else "C", T), "open_timeout", dict(server=server, T=T)))
+            if not server:
+                U.append(("open/C-proxy/T%d" % T, "open_timeout", dict(server=False, T=T, proxy=True)))
         for Tc in ((1, 2) if q else (1, 2, 3)):
             for Td in ((1, 2) if q else (1, 2, 3)):
                 if server and Td != 1:
@@ -352,6 +405,9 @@ def units(tier):
                 for restart in (True, False):
                     U.append(("ping/%s/I%d/T%d/%s" % ("S" if server else "C", I, T, "restart" if restart else "norestart"), "autoping",
                               dict(server=server, I=I, T=T, restart=restart, rounds=3 if q else 4), dict(weight=4)))
+    for server in (True, False):
+        for I, T, Tc in (((1, 1, 4), (2, 1, 5)) if q else ((1, 1, 4), (2, 1, 5), (1, 2, 5), (1, 1, 3))):
+            U.append(("race/%s/I%d/T%d/Tc%d" % ("S" if server else "C", I, T, Tc), "ping_vs_close", dict(server=server, I=I, T=T, Tc=Tc)))
     # the asyncio adapter on a virtual-time event loop (own interpreter per unit): same harnesses, same oracles
     AIO = dict(framework="asyncio")
     for server in (True, False):
